@@ -92,7 +92,7 @@ type checkOpts struct {
 	seed                        int
 	keep                        bool
 	stab                        int
-	nosolve                     bool
+	nosolve, fast               bool
 	verbose                     bool
 }
 
@@ -108,6 +108,7 @@ func cmdCheck(args []string) int {
 	fs.IntVar(&o.seed, "seed", 0, "seed")
 	fs.BoolVar(&o.keep, "keep", false, "keep query files")
 	fs.BoolVar(&o.verbose, "v", false, "verbose")
+	fs.BoolVar(&o.fast, "fast", false, "development: one 3 s attempt per obligation, no retry, no replay (never used by registered commands)")
 	fs.BoolVar(&o.nosolve, "nosolve", false, "generate the verification conditions and print notes only")
 	fs.IntVar(&o.stab, "stab", 0, "stability test: additionally run every obligation with this many z3 random seeds (report only)")
 	fs.Parse(args)
@@ -287,6 +288,9 @@ func runProperty(w *World, o *checkOpts) *Report {
 	if o.tier == "thorough" {
 		quick, full = 5, 60
 	}
+	if o.fast {
+		quick, full = 3, 1
+	}
 	var wg sync.WaitGroup
 	sem := make(chan struct{}, 16)
 	for _, j := range jobs {
@@ -359,6 +363,9 @@ func runProperty(w *World, o *checkOpts) *Report {
 		if ob.Cover || ob.Result.Status == "unsat" || ob.Result.Status == "sat" {
 			continue
 		}
+		if o.fast {
+			break
+		}
 		r2 := solve(ob.Result.File, quick*2, full*3, "unsat")
 		r2.Tried = append(ob.Result.Tried, r2.Tried...)
 		if r2.Status == "unsat" || r2.Status == "sat" {
@@ -372,7 +379,7 @@ func runProperty(w *World, o *checkOpts) *Report {
 	searchDone := map[string]*ReplayResult{}
 	for _, j := range jobs {
 		ob := j.o
-		if ob.Cover || ob.Result.Status == "unsat" || ob.RawQuery != "" {
+		if ob.Cover || ob.Result.Status == "unsat" || ob.RawQuery != "" || o.fast {
 			continue
 		}
 		if ob.Result.Model == nil {
